@@ -1,6 +1,6 @@
 (* ExecMerge.v — model of the execute plugin's observation validation and merges:
    execute/plugin.go:ValidateObservation, execute/plugin_functions.go:validateObserverReadingEligibility,
-   validateObserverDataEligibility, validateObservedSequenceNumbers, validateMessageKeys (repair of F13a), mergeCommitObservations,
+   validateObserverDataEligibility, validateObservedSequenceNumbers, validateMessageKeys (repair of F13a), validateObservedChains (repair of F13d), mergeCommitObservations,
    mergeMessageObservations, mergeTokenObservations, mergeNonceObservations, mergeCostlyMessages (with the
    repair of F13c), getConsensusObservation.
 
@@ -84,12 +84,22 @@ Definition validate_data (sup : list N) (dest : N) (o : obs) : bool :=
    else forallb (fun kv => match snd kv with [] => true | _ => false end) (o_nonces o) &&
         match o_costly o with [] => true | _ => false end).
 
-Definition validate (sup : list N) (dest : N) (o : obs) : bool :=
+(* validateObservedChains (repair of F13d): commit reports, messages and token data only under chains that the local
+   fChain knows (an empty inner map counts: the merges look at keys) *)
+Definition validate_chains (fchain : list (N * Z)) (o : obs) : bool :=
+  forallb (fun k => memN k (keys fchain)) (keys (o_commits o) ++ keys (o_msgs o) ++ keys (o_tokens o)).
+
+Definition validate (sup : list N) (dest : N) (fchain : list (N * Z)) (o : obs) : bool :=
+  validate_eligibility sup (o_msgs o) && validate_data sup dest o && validate_seqnums (o_commits o) &&
+  validate_msg_keys (o_msgs o) && validate_chains fchain o.
+(* ValidateObservation without the repair of F13a (validateMessageKeys) *)
+Definition validate_unfixed (sup : list N) (dest : N) (fchain : list (N * Z)) (o : obs) : bool :=
+  validate_eligibility sup (o_msgs o) && validate_data sup dest o && validate_seqnums (o_commits o) &&
+  validate_chains fchain o.
+(* ValidateObservation without the repair of F13d (validateObservedChains) *)
+Definition validate_nochains (sup : list N) (dest : N) (o : obs) : bool :=
   validate_eligibility sup (o_msgs o) && validate_data sup dest o && validate_seqnums (o_commits o) &&
   validate_msg_keys (o_msgs o).
-(* ValidateObservation without the repair of F13a *)
-Definition validate_unfixed (sup : list N) (dest : N) (o : obs) : bool :=
-  validate_eligibility sup (o_msgs o) && validate_data sup dest o && validate_seqnums (o_commits o).
 
 (* ---------- merges ---------- *)
 (* "no validator for chain": some observation has a key that fChain lacks *)
